@@ -191,8 +191,12 @@ needed; [winner] Netlink.Close; [loser] return once the winner's body is done). 
   never two closes, never two clears, never a clear after the close, no clear without SetPID;
 * as soon as ANY call has returned, all of it has been done — the socket is closed exactly once;
 * at most one call returns an error, namely the one that ran the body, and only if the PID clear
-  could not be sent or Netlink.Close failed; every other call returns nil. -/
-theorem C17_close_once_concurrent (clearPID sendOk closeOk : Bool) (sched : List Nat) :
+  could not be sent or Netlink.Close failed; every other call returns nil.
+
+PARTIAL: proved of the atomic-step model of `sync.Once` (`ccStep`).  Missing: that the Go runtime's
+`sync.Once` behaves like that model, and data-race freedom of the client under concurrent use — runtime
+facts, supported by the stress run of the harness only. -/
+theorem C17_close_once_concurrent_partial (clearPID sendOk closeOk : Bool) (sched : List Nat) :
     let c := ccRun (CC.init clearPID sendOk closeOk) sched
     (c.log = [] ∨ c.log = midLog clearPID ∨ c.log = fullLog clearPID) ∧
     (∀ i r, c.phase i = .ret r → c.log = fullLog clearPID ∧ (fullLog clearPID).count .sockClose = 1) ∧
